@@ -513,7 +513,7 @@ var c17QOperands = []string{"1", "$zz", `"s"`, `"s\(1)t"`, "foo", "@text", ".5",
 var c17QStarters = []string{"|", ",", "*", "/", "%", "==", "!=", "<", ">=", "and", "or", "//", "=", "|=", "+=", ";", ":", "?", "as", "then", "else", "elif", "end", "catch", "?//"}
 var c17QBadTok = []string{"1.2.3", "12ab", "3e+", "0x1F", "7e", "1.5.", ".5.5", "9z9", "2E-"}
 var c17QChars = []string{"é", "あ", "😀", "ｱ", "𝄞", "~", "^", "&", "`", "'", "!", `\`, "@", "$", "\xff", "\xc0"}
-var c17QEscapes = []string{`\q`, `\x`, `\a`, `\u12G4`, `\uZ`, `\ `, `\U0041`, `\u00g`}
+var c17QEscapes = []string{`\q`, `\x`, `\a`, `\u12G4`, `\uZ`, `\ `, `\U0041`, `\u00g`, `\é`, `\あ`, `\😀`, `\u12é4`, `\☆x`}
 
 // c17QWant is the expectation for one faulty source.
 type c17QWant struct {
@@ -703,6 +703,9 @@ var kC17Q = run.NewKind("c17.query", func(c *run.Ctx, t c17QCase) *run.Fail {
 		}
 		if pe.Token == "" {
 			return libFail("empty Token for an offending token")
+		}
+		if utf8.ValidString(src) && !utf8.ValidString(pe.Token) {
+			return libFail("Token ends inside a multi-byte character of a source that is valid UTF-8")
 		}
 		if ts != w.s {
 			return libFail("Offset-len(Token)=%d is not the start of the offending token (%d)", ts, w.s)
